@@ -10,7 +10,7 @@ from fractions import Fraction
 import numpy as np
 from . import common
 
-THEOREM_FILES = ['NumqiProps/C15.lean']
+THEOREM_FILES = ['NumqiProps/C15.lean', 'NumqiProps/C15Tables.lean']
 LEVEL = 'proof'
 RULE = ('ops: Euler-angle grid containing beta in {0, pi} exactly with alpha+gamma / alpha-gamma in all four quadrants, '
         'the 24 axis-aligned rotations, the threshold region beta in (0,1e-7) and (pi-1e-7,pi), random generic angles, '
@@ -22,7 +22,7 @@ TRUSTED = ['Lean 4.33 kernel', 'axioms: propext, Classical.choice, Quot.sound', 
            'harness/c15.py comparison tolerances (1e-12 forward maps, 1e-9 rebuilt rotations, 1e-6 inside |beta|<zero_eps)',
            'modelled, not verified: numqi/group/_lie.py, matrix_space/_clebsch_gordan.py; sympy CG values are a contract (probed)']
 
-OPEN_STATEMENTS = ['Numqi.C15.So3RoundtripThreshold.Statement', 'Numqi.C15.Su2IrrepHom.Statement']
+OPEN_STATEMENTS = ['Numqi.C15.So3RoundtripThreshold.Statement', 'Numqi.C15.Su2IrrepHom.Statement', 'Numqi.C15.ClebschGordanOrthonormal.Statement']
 PI = math.pi
 EPS = 1e-7
 
@@ -295,8 +295,11 @@ def correspondence(ctx):
         ctx.count('branch-' + mb[0]); ctx.count('in-' + tag)
         U = guarded(lambda: G.so3_to_su2(R))
         m = parse_cx(model[nI + i]).reshape(2, 2)
-        ok = (not isinstance(U, str)) and min(np.abs(U - m).max(), np.abs(U + m).max()) <= 1e-9
-        cmp(ctx, ops[nI + i], ok, model[nI + i], U)
+        # so3_to_su2 = angle_to_su2(so3_to_angle(R)) fixes the sign of U; model and implementation may only differ in sign when an
+        # extracted angle sits on the 2pi wrap of `% (2*pi)` (fmod vs floor), which flips e^{i(alpha+-gamma)/2} by pi
+        wrap = any(min(x % (2 * PI), 2 * PI - x % (2 * PI)) < 1e-9 for x in (al, ga))
+        ok = (not isinstance(U, str)) and (np.abs(U - m).max() <= 1e-9 or (wrap and np.abs(U + m).max() <= 1e-9))
+        cmp(ctx, ops[nI + i], ok, model[nI + i], U); ctx.count('so3su2-sign-exact' if not wrap else 'so3su2-wrap')
     ctx.sample({'op': ops[0][:120] + '…', 'out': model[0]})
 
     ops, aux = [], []
@@ -344,7 +347,8 @@ def correspondence(ctx):
             cmp(ctx, ops_e[i], ok, mo[i], (al, be, ga), key='zero_eps-so3ang')
             U = guarded(lambda: G.so3_to_su2(R, zero_eps=eps))
             m_ = parse_cx(mo[nR + i]).reshape(2, 2)
-            cmp(ctx, ops_e[nR + i], (not isinstance(U, str)) and min(np.abs(U - m_).max(), np.abs(U + m_).max()) <= 1e-9, mo[nR + i], U, key='zero_eps-so3su2')
+            wrap = any(min(x % (2 * PI), 2 * PI - x % (2 * PI)) < 1e-9 for x in (al, ga))
+            cmp(ctx, ops_e[nR + i], (not isinstance(U, str)) and (np.abs(U - m_).max() <= 1e-9 or (wrap and np.abs(U + m_).max() <= 1e-9)), mo[nR + i], U, key='zero_eps-so3su2')
         for j, U in enumerate(Us):
             op = ops_e[2 * nR + j]; line = mo[2 * nR + j]
             r = guarded(lambda: G.su2_to_angle(U, zero_eps=eps))
@@ -376,6 +380,86 @@ def correspondence(ctx):
                 sg = np.array([int(t.split(':')[0]) for t in body.split(';')]); sq = np.array([float(Fraction(t.split(':')[1])) for t in body.split(';')])
                 ok = ok and int(head) == jd and vals.shape == sg.shape and bool(np.all(np.sign(np.where(np.abs(vals) < 1e-14, 0, vals)) == sg)) and bool(np.all(np.abs(vals * vals - sq) <= 1e-12))
         cmp(ctx, op, ok, line[:200], 'table' if not isinstance(tab, str) else tab, key='cg')
+
+    # ---- batches on the SU(2) side: su2_to_so3 / su2_to_angle / so3_to_su2 / get_su2_irrep called once on a batch (complex dtype,
+    #      ndim up to 5), each element against the single-item model op
+    nprng1 = np.random.default_rng(ctx.np_seed + 11)
+    su2_pool = [ref_su2(a, b, g) if tag != 'betapi' else ref_su2(a, 0, 0) @ np.array([[0, -1], [1, 0]]) @ ref_su2(0, 0, g)
+                for a, b, g, tag in grid if not (tag in ('near0', 'nearpi') and 8e-8 < min(b, PI - b) < 1.3e-7)]
+    for shape in ([(5,), (2, 3), (2, 1, 2)] if ctx.quick() else [(5,), (2, 3), (2, 1, 2), (1,), (3, 1, 1, 2), (17,)]):
+        n_ = int(np.prod(shape))
+        pick = nprng1.integers(0, len(su2_pool), size=n_)
+        Ub = np.stack([su2_pool[i] for i in pick]).reshape(shape + (2, 2))
+        flatU = Ub.reshape(-1, 2, 2)
+        enc = lambda U: ' '.join(f2b(x) for x in (U[0, 0].real, U[0, 0].imag, U[0, 1].real, U[0, 1].imag))
+        ops_b = ['C15 su2so3f ' + enc(U) for U in flatU] + ['C15 su2ang ' + enc(U) + ' ' + f2b(EPS) for U in flatU]
+        mb_ = common.run_model(ops_b)
+        Rb = guarded(lambda: np.asarray(G.su2_to_so3(Ub)))
+        ang = guarded(lambda: [np.asarray(x) for x in G.su2_to_angle(Ub)])
+        for j in range(n_):
+            okR = (not isinstance(Rb, str)) and Rb.shape == shape + (3, 3) and np.abs(Rb.reshape(-1, 3, 3)[j].reshape(-1) - np.array(parse_f(mb_[j]))).max() <= 1e-13
+            cmp(ctx, ops_b[j], okR, mb_[j], Rb if isinstance(Rb, str) else 'batch element', key='batched-su2so3')
+            line = mb_[n_ + j].split(' ')
+            okA = (not isinstance(ang, str)) and ang[0].shape == shape
+            if okA:
+                al, be, ga = [float(x.reshape(-1)[j]) for x in ang]
+                ma, mbeta, mg = parse_f(line[1])
+                thr = branch_of_beta(be) != 'generic'
+                okA = branch_of_beta(be) == line[0] and (abs(be - mbeta) <= 1e-12 or abs(math.cos(be) - math.cos(mbeta)) <= 1e-15) \
+                    and np.abs(ref_su2(al, be, ga) - ref_su2(ma, mbeta, mg)).max() <= (2e-7 if thr else 1e-9)
+            cmp(ctx, ops_b[n_ + j], okA, mb_[n_ + j], ang if isinstance(ang, str) else 'batch element', key='batched-su2ang')
+        # so3_to_su2 on the batch of images
+        Rin = np.stack([inputs[i % len(inputs)][0] for i in pick]).reshape(shape + (3, 3))
+        ops_c = [mat_ops('so3su2', R) for R in Rin.reshape(-1, 3, 3)] + [mat_ops('so3ang', R) for R in Rin.reshape(-1, 3, 3)]
+        mc_ = common.run_model(ops_c)
+        Vb = guarded(lambda: np.asarray(G.so3_to_su2(Rin)))
+        for j in range(n_):
+            m_ = parse_cx(mc_[j]).reshape(2, 2)
+            ma, _, mg = parse_f(mc_[n_ + j].split(' ')[1])
+            wrap = any(min(x % (2 * PI), 2 * PI - x % (2 * PI)) < 1e-9 for x in (ma, mg))
+            okV = (not isinstance(Vb, str)) and Vb.shape == shape + (2, 2) and (np.abs(Vb.reshape(-1, 2, 2)[j] - m_).max() <= 1e-9 or (wrap and np.abs(Vb.reshape(-1, 2, 2)[j] + m_).max() <= 1e-9))
+            cmp(ctx, ops_c[j], okV, mc_[j], Vb if isinstance(Vb, str) else 'batch element', key='batched-so3su2')
+        # get_su2_irrep: matrix batch, angle batch, return_matd, j2 = 0 included; the model op takes the angles the implementation extracts
+        for j2 in ([0, 1, 4] if ctx.quick() else [0, 1, 2, 3, 4, 7, 10]):
+            Dm = guarded(lambda: G.get_su2_irrep(j2, Ub, return_matd=True))
+            if isinstance(ang, str) or isinstance(Dm, str):
+                cmp(ctx, f'C15 irrep-batch {j2} {shape}', False, 'n/a', Dm if isinstance(Dm, str) else ang, key='batched-irrep'); continue
+            D, md = np.asarray(Dm[0], dtype=np.complex128), np.asarray(Dm[1], dtype=np.float64)
+            ops_i = []
+            for j in range(n_):
+                al, be, ga = [float(x.reshape(-1)[j]) for x in ang]
+                ops_i += [f'C15 irrep {j2} {f2b(al)} {f2b(be)} {f2b(ga)}', f'C15 irrep {j2} {f2b(0.0)} {f2b(be)} {f2b(0.0)}']
+            mi = common.run_model(ops_i)
+            for j in range(n_):
+                okD = D.shape == shape + (j2 + 1, j2 + 1) and md.shape == D.shape \
+                    and np.abs(D.reshape(n_, j2 + 1, j2 + 1)[j] - parse_cx(mi[2 * j]).reshape(j2 + 1, j2 + 1)).max() <= 1e-10 \
+                    and np.abs(md.reshape(n_, j2 + 1, j2 + 1)[j] - parse_cx(mi[2 * j + 1]).reshape(j2 + 1, j2 + 1)).max() <= 1e-10
+                cmp(ctx, ops_i[2 * j], okD, mi[2 * j][:120], 'batch element', key='batched-irrep')
+            # angle-batch form (k,l) by broadcasting
+            A_ = nprng1.uniform(-7, 7, size=(shape[0], 1)); B_ = np.array([[0.0, PI, 1.3]])
+            Da = guarded(lambda: np.asarray(G.get_su2_irrep(j2, A_, B_, 0.4), dtype=np.complex128))
+            ops_a = [f'C15 irrep {j2} {f2b(A_[i, 0])} {f2b(B_[0, l])} {f2b(0.4)}' for i in range(shape[0]) for l in range(3)]
+            ma_ = common.run_model(ops_a)
+            for q, (op, line) in enumerate(zip(ops_a, ma_)):
+                okq = (not isinstance(Da, str)) and Da.shape == (shape[0], 3, j2 + 1, j2 + 1) and np.abs(Da.reshape(-1, j2 + 1, j2 + 1)[q] - parse_cx(line).reshape(j2 + 1, j2 + 1)).max() <= 1e-10
+                cmp(ctx, op, okq, line[:120], Da if isinstance(Da, str) else 'batch element', key='batched-irrep-angles')
+
+    # ---- irreducible tensor operators: sign and square against the exact model built from cgSq -------------------------------------
+    ops_t = [f'C15 ito {S_}' for S_ in range(0, 7 if ctx.quick() else 9)]
+    mo = common.run_model(ops_t)
+    for op, line in zip(ops_t, mo):
+        S_ = int(op.split(' ')[2])
+        tab = guarded(lambda: numqi.matrix_space.get_irreducible_tensor_operator(S_))
+        if isinstance(tab, str) or line.startswith('error'):
+            cmp(ctx, op, tab == line, line, tab, key='ito'); continue
+        blocks = line.split(' ')
+        ok = len(blocks) == len(tab)
+        for T_, blk in zip(tab, blocks if ok else []):
+            head, body = blk.split('|')
+            vals = np.asarray(T_, dtype=np.float64).reshape(-1)
+            sg = np.array([int(t.split(':')[0]) for t in body.split(';')]); sq = np.array([float(Fraction(t.split(':')[1])) for t in body.split(';')])
+            ok = ok and T_.shape[0] == int(head) + 1 and vals.shape == sg.shape and bool(np.all(np.sign(np.where(np.abs(vals) < 1e-13, 0, vals)) == sg)) and bool(np.all(np.abs(vals * vals - sq) <= 1e-11))
+        cmp(ctx, op, ok, line[:160], 'table', key='ito')
 
     # ---- mixed batches: the batched call against the model element by element ---------------------------------------
     nprng = np.random.default_rng(ctx.np_seed)
@@ -935,6 +1019,31 @@ def probe(ctx):
         ctx.fail('irrep-return-matd', f'get_su2_irrep(return_matd=True) does not return (D, d(beta)): {rm if isinstance(rm, str) else ""}', dict(op='irrep-matd', j2=2, angles=[0.4, 1.1, 2.0]))
     else:
         ctx.probe_ok('matd')
+
+    # P13: irreducible tensor operators and the Hermitian basis built from them (all four tag_norm / tag_stack combinations)
+    for S_ in range(1, 7 if ctx.quick() else 11):
+        def f():
+            T = numqi.matrix_space.get_irreducible_tensor_operator(S_)
+            jx, jy, jz = numqi.matrix_space.get_angular_momentum_op(S_)
+            allT = np.concatenate(T, axis=0)
+            gram = np.einsum('aij,bij->ab', allT.conj(), allT)
+            e1 = amax(gram - (S_ + 1) * np.eye(gram.shape[0]))
+            # spherical tensor: [Jz, T^k_q] = q T^k_q, q = k, k-1, ..., -k
+            e2 = max(amax(jz @ Tk[r] - Tk[r] @ jz - (k - r) * Tk[r]) for k, Tk in enumerate(T) for r in range(2 * k + 1))
+            e3 = 0.0; shapes_ok = len(T) == S_ + 1 and all(Tk.shape == (2 * k + 1, S_ + 1, S_ + 1) for k, Tk in enumerate(T))
+            for norm in (False, True):
+                B = numqi.matrix_space.get_irreducible_hermitian_matrix_basis(S_, tag_norm=norm, tag_stack=True)
+                cz, cx, cy = numqi.matrix_space.get_irreducible_hermitian_matrix_basis(S_, tag_norm=norm, tag_stack=False)
+                g2 = np.einsum('aij,bji->ab', B, B)
+                nrm = 1.0 if norm else (S_ / 2) * (S_ / 2 + 1) * (S_ + 1) / 3
+                e3 = max(e3, amax(B - B.conj().transpose(0, 2, 1)), amax(g2 - nrm * np.eye(B.shape[0])), amax(np.concatenate([cz, cx, cy], axis=0) - B),
+                         amax(B[0] - B[0][0, 0] * np.eye(S_ + 1)), 0.0 if B.shape == ((S_ + 1) ** 2, S_ + 1, S_ + 1) else float('inf'))
+            return e1, e2, e3, shapes_ok
+        r = guarded(f)
+        if isinstance(r, str) or not r[3] or max(r[:3]) > 1e-10:
+            ctx.fail('irreducible-tensor', f'get_irreducible_tensor_operator / get_irreducible_hermitian_matrix_basis (S_double={S_}): not trace-orthogonal spherical tensors / Hermitian trace-orthogonal basis of (S+1)^2 elements: {r}', dict(op='irreducible-tensor', S_double=S_))
+        else:
+            ctx.probe_ok(('ito', S_))
 
     # P7: rational 2x2 rotations are orthogonal
     for _ in range(50):
